@@ -2,9 +2,10 @@
      pkg/l2tp/control_channel.go   NewControlChannel, SetPeerWindow, SendSession, driveSend,
                                    recomputeNextRTO, Recv, ackThrough, growCwndOnAck,
                                    scheduleZLB, Tick, seqLess
-     internal/l2tp/dispatch.go     the rule by which inbound control messages reach Recv
-                                   (lines 76-90: every message incl. a ZLB goes through Recv,
-                                   the ZLB is dropped afterwards)
+     internal/l2tp/dispatch.go     the rule by which inbound control messages reach the channel
+                                   (ZLB -> RecvZLB, every other message -> Recv, then its handler)
+     internal/l2tp/runner.go       the runner's timer (runner_next) and the advertised window
+                                   applied at establishment (apply_peer_window)
    and of a pair of such endpoints joined by a network that may drop, duplicate,
    delay and reorder.  Definitions only; proofs are in Proofs.v.
 
@@ -190,10 +191,10 @@ Definition tick (f : conf) (c : chan) (now : Z) : chan * list pkt * bool * optio
   end.
 
 (* ---------- the dispatch rule (internal/l2tp/dispatch.go:72-90) ---------- *)
-(* zlb_recv = true : what the code does today: a ZLB goes through Recv like any message
-                     and is dropped afterwards ("defective")
-   zlb_recv = false: a ZLB only acknowledges ("repaired")
-   third component: the message is handed to the protocol machine *)
+(* zlb_recv = false: what /repo HEAD does (since 96f9f16): a ZLB only acknowledges (RecvZLB = ackThrough)
+   zlb_recv = true : the rule before that fix — a ZLB went through Recv like any message and was dropped
+                     afterwards; kept only for the historical refuted theorem, not used by the correspondence
+   last component: the message is handed to the protocol machine *)
 Definition dispatch (zlb_recv : bool) (f : conf) (c : chan) (p : pkt) (now : Z) (fj : option nat)
   : chan * list pkt * option pkt * bool :=
   match k_body p with
